@@ -90,73 +90,6 @@ fn tree_json(t: &Tree) -> J {
     J::String(tree_to_string(t))
 }
 
-/// every written leaf value of every file: (ns, locale, path)
-pub fn all_written_leaves(p: &Project) -> Vec<(Option<String>, String, Vec<String>)> {
-    let mut out = vec![];
-    for ((ns, loc), obj) in &p.files {
-        let mut paths = vec![];
-        leaf_paths(obj, &mut vec![], &mut paths);
-        for path in paths {
-            out.push((ns.clone(), loc.clone(), path));
-        }
-    }
-    out
-}
-
-/// errors the documentation requires for this project (empty = must load)
-pub fn expected_errors(p: &Project, sem: &Sem) -> Vec<ModelErr> {
-    let mut errs = vec![];
-    // every written value must resolve (references are resolved wherever they are written)
-    for (ns, loc, path) in all_written_leaves(p) {
-        match sem.raw(ns.as_deref(), &loc, &path) {
-            Lookup::Val(Value::Null) => {
-                if loc == p.default_locale() {
-                    errs.push(ModelErr {
-                        kind: ErrKind::ExplicitDefaultInDefault,
-                        at: path.join("."),
-                    });
-                }
-            }
-            Lookup::Val(Value::Sub(_)) | Lookup::Absent => {}
-            Lookup::Val(_) => {
-                if let Err(e) = sem.resolve_at(ns.as_deref(), &loc, &path) {
-                    errs.push(e);
-                }
-            }
-        }
-    }
-    // a subkey group in one locale and a value in another
-    if let Err(e) = model_key_warnings(p, false) {
-        errs.push(e);
-    }
-    // count-variable conflicts per accessible key (union over locales)
-    for ns in p.ns_list() {
-        let Some(def) = p.file(ns.as_deref(), p.default_locale()) else { continue };
-        let mut paths = vec![];
-        leaf_paths(def, &mut vec![], &mut paths);
-        for path in paths {
-            let mut sig = Signature::default();
-            for loc in &p.locales {
-                if sem.is_defaulted(ns.as_deref(), loc, &path) {
-                    continue;
-                }
-                if let Ok(r) = sem.resolve_at(ns.as_deref(), loc, &path) {
-                    signature(&r, &mut sig);
-                }
-            }
-            for (v, kinds) in &sig.counts {
-                if kinds.len() > 1 {
-                    errs.push(ModelErr {
-                        kind: ErrKind::Other(format!("count conflict on {v}: {kinds:?}")),
-                        at: path.join("."),
-                    });
-                }
-            }
-        }
-    }
-    errs
-}
-
 fn range_ty_of(t: RangeType) -> RangeTy {
     match t {
         RangeType::I8 => RangeTy::I8,
@@ -169,148 +102,6 @@ fn range_ty_of(t: RangeType) -> RangeTy {
         RangeType::U64 => RangeTy::U64,
         RangeType::F32 => RangeTy::F32,
         RangeType::F64 => RangeTy::F64,
-    }
-}
-
-fn next_up(x: f64, ty: RangeTy) -> f64 {
-    if ty == RangeTy::F32 {
-        let f = x as f32;
-        let b = f.to_bits();
-        let n = if f == 0.0 {
-            1
-        } else if f > 0.0 {
-            b + 1
-        } else {
-            b - 1
-        };
-        let r = f32::from_bits(n);
-        if r.is_finite() {
-            r as f64
-        } else {
-            x
-        }
-    } else {
-        let b = x.to_bits();
-        let n = if x == 0.0 {
-            1
-        } else if x > 0.0 {
-            b + 1
-        } else {
-            b - 1
-        };
-        let r = f64::from_bits(n);
-        if r.is_finite() {
-            r
-        } else {
-            x
-        }
-    }
-}
-
-fn next_down(x: f64, ty: RangeTy) -> f64 {
-    -next_up(-x, ty)
-}
-
-/// interesting counts for a range: every bound, its neighbours, the type extremes
-pub fn range_probe_counts(specs: &[&CountSpec], ty: RangeTy) -> Vec<Num> {
-    let mut out: Vec<Num> = vec![];
-    let mut push = |n: Num| {
-        if !out.iter().any(|x| match (x, &n) {
-            (Num::Int(a), Num::Int(b)) => a == b,
-            (Num::Float(a), Num::Float(b)) => a.to_bits() == b.to_bits(),
-            _ => false,
-        }) {
-            out.push(n)
-        }
-    };
-    if ty.is_float() {
-        let mut base = vec![0.0, 1.0, -1.0, 0.5];
-        for s in specs {
-            match s {
-                CountSpec::Exact { v, .. } => base.push(v.as_f64()),
-                CountSpec::Bounds { start, end } => {
-                    if let Some(s) = start {
-                        base.push(s.as_f64());
-                    }
-                    if let Some((e, _)) = end {
-                        base.push(e.as_f64());
-                    }
-                }
-            }
-        }
-        for b in base {
-            let b = if ty == RangeTy::F32 { (b as f32) as f64 } else { b };
-            push(Num::Float(b));
-            push(Num::Float(next_up(b, ty)));
-            push(Num::Float(next_down(b, ty)));
-        }
-        if ty == RangeTy::F32 {
-            push(Num::Float(f32::MAX as f64));
-            push(Num::Float(f32::MIN as f64));
-        } else {
-            push(Num::Float(f64::MAX));
-            push(Num::Float(f64::MIN));
-        }
-    } else {
-        let (lo, hi) = ty.min_max();
-        let mut base = vec![0i128, 1, 2, lo, hi];
-        for s in specs {
-            match s {
-                CountSpec::Exact { v: Num::Int(i), .. } => base.push(*i),
-                CountSpec::Bounds { start, end } => {
-                    if let Some(Num::Int(s)) = start {
-                        base.push(*s);
-                    }
-                    if let Some((Num::Int(e), _)) = end {
-                        base.push(*e);
-                    }
-                }
-                _ => {}
-            }
-        }
-        for b in base {
-            for d in [-2i128, -1, 0, 1, 2] {
-                let v = b + d;
-                if v >= lo && v <= hi {
-                    push(Num::Int(v));
-                }
-            }
-        }
-    }
-    out
-}
-
-pub const PLURAL_PROBES: &[i128] = &[
-    0, 1, 2, 3, 4, 5, 6, 7, 8, 9, 10, 11, 12, 13, 14, 19, 20, 21, 22, 23, 24, 25, 80, 100, 101, 102, 103, 111, 112, 113, 800,
-    1000, 1001, 1000000, 2000000, 1000001,
-];
-
-fn collect_count_specs<'a>(pieces: &'a [RPiece], var: &str, out: &mut Vec<(&'a CountSpec, RangeTy)>, plural: &mut bool) {
-    for p in pieces {
-        match p {
-            RPiece::Comp { children, .. } => collect_count_specs(children, var, out, plural),
-            RPiece::Range(r) => {
-                if r.count_var == var {
-                    for (specs, _) in &r.branches {
-                        for s in specs {
-                            out.push((s, r.ty));
-                        }
-                    }
-                }
-                for (_, b) in &r.branches {
-                    collect_count_specs(b, var, out, plural);
-                }
-            }
-            RPiece::Plural(pl) => {
-                if pl.count_var == var {
-                    *plural = true;
-                }
-                for b in pl.forms.values() {
-                    collect_count_specs(b, var, out, plural);
-                }
-            }
-            _ => {}
-        }
     }
 }
 
